@@ -31,6 +31,7 @@ import (
 	"github.com/LindsayBradford/crem/internal/pkg/parameters"
 	crand "github.com/LindsayBradford/crem/internal/pkg/rand"
 	"github.com/LindsayBradford/crem/pkg/attributes"
+	cremmath "github.com/LindsayBradford/crem/pkg/math"
 )
 
 // ---------------------------------------------------------------- scripted randomness
@@ -553,6 +554,32 @@ func isGiveUp(text string) bool {
 		}
 	}
 	return strings.Contains(text, "Attempt limit "+"reached")
+}
+
+// isRoundingRefusal: does the text carry what pkg/math.RoundFloat of the code under test says when the number is too big for
+// the precision (learnt by asking it; the wording of the pinned commit otherwise)?
+var (
+	roundRefusalOnce sync.Once
+	roundRefusalText string
+)
+
+func isRoundingRefusal(text string) bool {
+	roundRefusalOnce.Do(func() {
+		defer func() {
+			if r := recover(); r != nil {
+				if _, isRuntime := r.(runtime.Error); !isRuntime {
+					if t := fmt.Sprint(r); len(t) >= 16 {
+						roundRefusalText = t
+					}
+				}
+			}
+		}()
+		cremmath.RoundFloat(1e300, 3)
+	})
+	if roundRefusalText != "" && strings.Contains(text, roundRefusalText) {
+		return true
+	}
+	return strings.Contains(text, "Attempt to round floating "+"point")
 }
 
 // ---------------------------------------------------------------- shipped datasets
